@@ -18,7 +18,7 @@ pub const FLOORS: &[&str] = &[
     "origin:default", "origin:other", "origin:ge8000", "image_straddles_8000", "break_or_orig_interleaved",
     "assembly_after_memory_was_modified", "label_like_register_with_digits", "break_table_row", "break_table_row_truncated",
     "break_table_row_multibyte", "break_table_row_without_statement", "image_crosses_fe00", "label_shaped_like_number_or_register",
-    "eval_of_a_line_with_its_label_in_front", "stmt:continued_on_the_next_line", "first_statement_at_byte_zero_without_operands", "label_in_front_of_break", "label_offset_beyond_16_bits_refused", "label_32768_words_behind_the_statement_asked_for",
+    "eval_of_a_line_with_its_label_in_front", "stmt:continued_on_the_next_line", "first_statement_at_byte_zero_without_operands", "label_in_front_of_break", "label_offset_beyond_16_bits_refused", "label_32768_words_behind_the_statement_asked_for", "label:move_signed_value",
 ];
 
 pub fn run(cfg: &Cfg, col: &mut Collector) {
@@ -155,6 +155,8 @@ fn one_case(seed: u64, i: u64) -> CaseOut {
         Asm(u16),
         Goto(String, u16, i32),
         Print(String, u16, i32),
+        /// `move <label>[+-k] <value>`: token, label address, offset, value as written, value
+        Move(String, u16, i32, String, u16),
     }
     // label + an offset beyond 16 bits: refused where the line is parsed (checked separately below, these lines
     // have no prompt of their own)
@@ -199,6 +201,13 @@ fn one_case(seed: u64, i: u64) -> CaseOut {
                 Ok(crate::refcmd::RLoc::Label(n, o)) if n == *name && o as i32 == k => {
                     if !debugger_safe(name) {
                         out.class("label_shaped_like_number_or_register");
+                    }
+                    if is_print && rng.chance(1, 3) {
+                        // a value with a sign of its own behind a label: the sign belongs to the value
+                        let (vt, v) = *rng.pick(&[("-1", 0xFFFFu16), ("+7", 7), ("-4", 0xFFFC), ("#-2", 0xFFFE), ("x-1", 0xFFFF), ("-x10", 0xFFF0), ("+0", 0), ("12", 12)]);
+                        if matches!(crate::refcmd::parse(&format!("move {} {}", token, vt)), Ok(crate::refcmd::Parsed::Move(_, pv)) if pv == v) {
+                            qs.push(Q::Move(token.clone(), addr, k, vt.to_string(), v));
+                        }
                     }
                     if is_print {
                         qs.push(Q::Print(token, addr, k));
@@ -260,6 +269,7 @@ fn one_case(seed: u64, i: u64) -> CaseOut {
             Q::Asm(a) => format!("{} {}", rng.s(&["assembly", "a", "asm"]), match rng.below(3) { 0 => format!("x{:04x}", a), 1 => format!("{}", a), _ => format!("0x{:X}", a) }),
             Q::Goto(token, _, _) => format!("{} {}", rng.s(&["goto", "g"]), token),
             Q::Print(token, _, _) => format!("{} {}", rng.s(&["print", "p"]), token),
+            Q::Move(token, _, _, vt, _) => format!("{} {} {}", rng.s(&["move", "m"]), token, vt),
         });
     }
     let n_regular = lines.len();
@@ -373,6 +383,23 @@ fn one_case(seed: u64, i: u64) -> CaseOut {
                     return out;
                 }
                 out.class(if *k == 0 { "label:goto" } else { "label:goto_offset" });
+            }
+            Q::Move(_, addr, k, _, v) => {
+                let t = *addr as i32 + k;
+                if t >= orig as i32 && t < 0xFE00 {
+                    let target = t as u16;
+                    let w = after.mem_diff.iter().find(|(a, _)| *a == target).map(|(_, w)| *w).unwrap_or(sess.init_mem[target as usize]);
+                    if w != *v {
+                        out.violate(
+                            "C17/label-move",
+                            i,
+                            format!("after `{}` the word at x{:04X} (the label's statement at x{:04X}, offset {}) holds x{:04X}, not x{:04X}", lines[li], target, addr, k, w, v),
+                            detail(li, String::new()),
+                        );
+                        return out;
+                    }
+                    out.class("label:move_signed_value");
+                }
             }
             Q::Print(_, addr, k) => {
                 let target = (*addr as i32 + k) as u16;
